@@ -31,6 +31,7 @@
 #include "soplex/spxpricer.h"
 #include "soplex/spxratiotester.h"
 #include "soplex/spxdefaultrt.h"
+#include "soplex/spxfastrt.h"
 #include "soplex/spxstarter.h"
 #include "soplex/spxout.h"
 #include "soplex/verifhooks.h"
@@ -1273,6 +1274,11 @@ bool SPxSolverBase<R>::performSolutionPolishing()
 
    // only polish an already optimal basis
    if(stop || polishObj == POLISH_OFF || status() != OPTIMAL)
+      return false;
+
+   // the polishing pivots rely on the polish mode of SPxFastRT (which SPxBoundFlippingRT falls back to); the textbook
+   // and the Harris ratio test ignore the flag and perform ordinary pivots that can leave a singular basis behind
+   if(dynamic_cast<SPxFastRT<R>*>(theratiotester) == nullptr)
       return false;
 
    int nSuccessfulPivots;
